@@ -113,7 +113,9 @@ func rootIdent(e ast.Expr) string {
 	}
 }
 
-func leanStr(s string) string { return "\"" + strings.ReplaceAll(strings.ReplaceAll(s, "\\", "\\\\"), "\"", "\\\"") + "\"" }
+func leanStr(s string) string {
+	return "\"" + strings.ReplaceAll(strings.ReplaceAll(s, "\\", "\\\\"), "\"", "\\\"") + "\""
+}
 func leanBool(b bool) string {
 	if b {
 		return "true"
@@ -199,7 +201,6 @@ func errorCatalogue(dir string) []string {
 	}
 	return res
 }
-
 
 // ---- walking a case body together with the helpers it hands the cursor to ------------------------------------------
 //
